@@ -1,8 +1,14 @@
 (** * Text.RoundTrip — printing a lowered program and parsing + lowering the text again gives
-    the program back (C22), for the proved ("small") core fragment of [Text.Syntax22]:
-    structs with flags, traits with flags, positive/negative (upstream) impls, quantified
-    where-clauses of the three kinds that need no associated types, and the types
-    parameter / ADT application / scalar / tuple / shared and mutable reference.
+    the program back (C22), for the proved core fragment of [Text.Syntax22]:
+
+      items:  structs and enums with flags (upstream, fundamental, phantom_data, one_zst),
+              traits with flags (auto, marker, upstream, fundamental, non_enumerable,
+              coinductive, object_safe), positive/negative and upstream impls;
+      where-clauses (quantified by [forall<..>] over types and lifetimes): trait bound,
+              lifetime outlives, type outlives;
+      types:  parameters and [Self], ADT applications, the 18 scalars, tuples, shared/mutable
+              references, raw pointers, slices, [str], [!]; lifetimes: parameters, ['static],
+              ['erased].
 
     [norm] is the identity on this fragment: it has no associated-type equality bounds (the
     only construct whose lowering adds a where-clause, namely the trait bound it implies) and
@@ -10,11 +16,10 @@
     witnessed by list equality.
 
     Not covered by a theorem (only by the end-to-end differential test of [checks/c22.py]):
-    enums, variances, reprs, one_zst, associated types/values and their bounds, equality
-    bounds, raw pointers, slices, arrays/const parameters, str/never, fn pointers, dyn, opaque
-    types, fn definitions, lang attributes.  The statement intended for that full fragment is
-    [parse_print_full_statement] below, with [norm] adding the implied trait bound after each
-    equality bound. *)
+    variances, reprs, int/float/const parameters and arrays, associated types/values and their
+    bounds, equality bounds, fn pointers, dyn, opaque types, fn definitions, lang attributes.
+    The statement intended for that full fragment of DESIGN.md is [parse_print_full_statement]
+    below, with [norm] adding the implied trait bound after each equality bound. *)
 
 From Coq Require Import List NArith Bool Arith PeanoNat Lia.
 Import ListNotations.
@@ -55,11 +60,14 @@ Definition w_prog : program :=
   [ ITrait 10%N [KTy; KLt] {| tf_auto := false; tf_marker := true; tf_upstream := false; tf_fundamental := false;
                             tf_non_enumerable := false; tf_coinductive := true; tf_object_safe := false |}
       [ ([], WImpl (TVar (1, 0)) 0 [GTy (TVar (1, 1)); GLt (LVar (1, 2))]) ];
-    IStruct 11%N [KLt; KTy] {| sf_upstream := true; sf_fundamental := false; sf_phantom_data := false |}
-      [ TRef true (LVar (0, 0)) (TVar (0, 1)); TTuple [TScalar Su8]; TAdt 1 [GLt LStatic; GTy (TTuple [])] ]
+    IStruct 11%N [KLt; KTy] {| sf_upstream := true; sf_fundamental := false; sf_phantom_data := false; sf_one_zst := true |}
+      [ TRef true (LVar (0, 0)) (TVar (0, 1)); TTuple [TScalar Su8]; TAdt 1 [GLt LStatic; GTy (TTuple [])];
+        TRaw false (TSlice TStr); TRaw true TNever ]
       [ ([KLt], WTyOut (TVar (1, 1)) (LVar (0, 0))); ([], WLtOut (LVar (1, 0)) LStatic) ];
     IImpl [KTy] false false 0 [GTy (TScalar Sbool); GLt LErased] (TAdt 1 [GLt LStatic; GTy (TVar (0, 0))])
-      [ ([KTy], WImpl (TVar (0, 0)) 0 [GTy (TVar (1, 0)); GLt LStatic]) ] ].
+      [ ([KTy], WImpl (TVar (0, 0)) 0 [GTy (TVar (1, 0)); GLt LStatic]) ];
+    IEnum 12%N [KTy] {| sf_upstream := false; sf_fundamental := true; sf_phantom_data := false; sf_one_zst := false |}
+      [ []; [TVar (0, 0); TAdt 3 [GTy TStr]] ] [] ].
 
 Lemma w_prog_wf : wf w_prog.
 Proof.
@@ -71,5 +79,5 @@ Qed.
 Example parse_print_nonvacuous : parse_fuel (need w_prog) (print w_prog) = Some w_prog.
 Proof. apply parse_print_small; [apply w_prog_wf|lia]. Qed.
 
-Example print_w_prog_tokens : length (print w_prog) = 107.
+Example print_w_prog_tokens : length (print w_prog) = 154.
 Proof. vm_compute. reflexivity. Qed.
